@@ -7,6 +7,10 @@ pub fn install_quiet_panic_hook() {
     std::panic::set_hook(Box::new(|_| {}));
 }
 
+pub fn panic_msg_pub(e: Box<dyn std::any::Any + Send>) -> String {
+    panic_msg(e)
+}
+
 fn panic_msg(e: Box<dyn std::any::Any + Send>) -> String {
     if let Some(s) = e.downcast_ref::<&str>() {
         s.to_string()
